@@ -15,6 +15,8 @@ import (
 	"strings"
 	"testing"
 
+	"google.golang.org/protobuf/proto"
+
 	"github.com/mutagen-io/mutagen/pkg/encoding"
 	"github.com/mutagen-io/mutagen/pkg/stream"
 	"github.com/mutagen-io/mutagen/pkg/synchronization/compression"
@@ -159,6 +161,41 @@ func message(p []byte) *rsync.Transmission {
 	return &rsync.Transmission{Operation: &rsync.Operation{Data: p}}
 }
 
+// sizedMessage builds a control-stream message whose ENCODED size is exactly s
+// (nil when no such message exists: s == 1). The bulk is the error string (field 4:
+// 1 tag byte + varint length + n bytes); Done (2 bytes) and ExpectedSize=1 (2 bytes)
+// fill the sizes a lone string field cannot reach. Verified with proto.Size.
+func sizedMessage(s, idx int) *rsync.Transmission {
+	var m *rsync.Transmission
+	switch {
+	case s == 0:
+		m = &rsync.Transmission{}
+	case s == 2:
+		m = &rsync.Transmission{Done: true}
+	default:
+	search:
+		for _, extra := range []struct {
+			done bool
+			exp  uint64
+			n    int
+		}{{false, 0, 0}, {true, 0, 2}, {false, 1, 2}, {true, 1, 4}} {
+			for vl := 1; vl <= 5; vl++ {
+				n := s - extra.n - 1 - vl
+				if n >= 1 && uvarintLen(uint64(n)) == vl {
+					b := []byte(asciiPayload(n, 40+idx))
+					b[0] = byte('a' + idx)
+					m = &rsync.Transmission{Done: extra.done, ExpectedSize: extra.exp, Error: string(b)}
+					break search
+				}
+			}
+		}
+	}
+	if m == nil || proto.Size(m) != s {
+		return nil
+	}
+	return m
+}
+
 type algSpec struct {
 	Name string
 	Alg  compression.Algorithm
@@ -189,12 +226,15 @@ type framing struct {
 	Alg   string
 	Sizes []int
 	Flush int
+	// Encoded: Sizes are exact ENCODED message sizes (size-sweep leg, sizedMessage)
+	// instead of payload sizes.
+	Encoded bool `json:",omitempty"`
 }
 
 // produced is the result of writing a framing through the real outbound stack.
 type produced struct {
 	wire       []byte
-	want       [][]byte // payloads in order
+	want       []*rsync.Transmission // written messages in order
 	flushedLen []int    // wire length right after the flush following message i (-1: no flush there)
 	marks      []int    // interesting wire offsets (write ends, flush points, frame boundaries)
 	err        error
@@ -206,9 +246,16 @@ func produce(f framing) produced {
 	frame := 0
 	var frames []int
 	for i, size := range f.Sizes {
-		pl := payload(size, i)
-		p.want = append(p.want, pl)
-		m := message(pl)
+		var m *rsync.Transmission
+		if f.Encoded {
+			if m = sizedMessage(size, i); m == nil {
+				p.err = fmt.Errorf("INFRA: no message with encoded size %d", size)
+				return p
+			}
+		} else {
+			m = message(payload(size, i))
+		}
+		p.want = append(p.want, m)
 		if err := out.encoder.Encode(m); err != nil {
 			p.err = fmt.Errorf("Encode of message %d failed: %w", i, err)
 			return p
@@ -216,6 +263,9 @@ func produce(f framing) produced {
 		if f.Alg == "none" {
 			// Uncompressed frame geometry: prefix start, body start, body end.
 			body := len(mustMarshalLen(m))
+			if f.Encoded {
+				body = size
+			}
 			pre := uvarintLen(uint64(body))
 			frames = append(frames, frame, frame+pre, frame+pre+body)
 			frame += pre + body
@@ -329,9 +379,9 @@ func decodeAndJudge(f framing, p *produced, d delivery) (out decodeOutcome) {
 			return
 		}
 		want := p.want[out.decoded]
-		got := m.GetOperation().GetData()
-		if !bytes.Equal(got, want) || m.Done || m.Error != "" || m.ExpectedSize != 0 || (len(want) == 0 && m.Operation != nil) {
-			out.what = fmt.Sprintf("message %d decoded differently: got %d data bytes (first differing offset %d), want %d", out.decoded, len(got), firstDiff(got, want), len(want))
+		if !sameMessage(&m, want) || (want.Operation == nil && m.Operation != nil) {
+			got, wd := m.GetOperation().GetData(), want.GetOperation().GetData()
+			out.what = fmt.Sprintf("message %d decoded differently: got %d data bytes/%d error bytes (first differing data offset %d), want %d/%d", out.decoded, len(got), len(m.Error), firstDiff(got, wd), len(wd), len(want.Error))
 			return
 		}
 		out.decoded++
@@ -407,7 +457,7 @@ func allFramings(algs []algSpec, sizes []int, maxMsgs int) []framing {
 	for _, a := range algs {
 		for _, s := range seqs {
 			for mask := 0; mask < 1<<uint(len(s)); mask++ {
-				out = append(out, framing{a.Name, s, mask})
+				out = append(out, framing{a.Name, s, mask, false})
 			}
 		}
 	}
@@ -556,6 +606,7 @@ func TestC22(t *testing.T) {
 	}
 	r.Rule(fmt.Sprintf("leg A: every sequence of 1..3 messages with payload sizes {0,1,200,70000} x every subset of flush points x compression %v, written through the real ProtobufEncoder/bufio/compressor/bufio/MultiFlusher stack; the produced wire bytes are given to the real bufio/decompressor/bufio/ProtobufDecoder stack (a) as prefix [0,c) after which the reader runs dry, for every cut c, (b) as two fragments [0,c),[c,end) for every c, (c) one byte per Read; %s. "+
 		"Wires longer than %d bytes (those with a 70000-byte message) are cut at every multiple of %d plus every position within +-%d of a mark (end of each Write to the wire, flush point, uncompressed frame boundary: prefix start/body start/body end, multiples of 32 KiB), shorter wires at every position. "+
+		"leg S: single messages, (message, 3-byte sentinel), (sentinel, message) and (message, message, sentinel) for EVERY encoded message size in [0,300] and [16354,16404] (thorough also 2097152+-20; size 1 does not exist), sizes verified with proto.Size, flushed at the end and after each message, delivered whole and one byte per Read. "+
 		"leg F: forged length prefixes {limit+1, limit+2, 2^31, 2^32, 2^62, 2^63, 2^64-1, over-long varints} after 0..2 valid messages. leg B: see client_* keys. "+
 		"non-trivial = at least one message written and a non-empty wire; distinct by (framing, delivery)", algNames, pairRule, exhaustiveBelow, stride, near))
 	r.Assume("leg A composes the pipeline in the harness in the same order as remote/client.go and server.go (64 KiB bufio on both sides of the compressor, MultiFlusher(outbound, compressor, compressedOutbound)); leg B pins that composition against the real remote.NewEndpoint client",
@@ -671,12 +722,81 @@ func TestC22(t *testing.T) {
 		}
 	})
 
+	// ---- leg S: encoded-size sweep ----
+	// Every encoded message size around the varint prefix-width boundaries: the message
+	// alone, followed by a small sentinel, and preceded by one (the encoder reuses its
+	// buffer), flushed once at the end and after every message; delivered whole and one
+	// byte per Read.
+	{
+		var sweep []int
+		add := func(lo, hi int) {
+			for x := lo; x <= hi; x++ {
+				if sizedMessage(x, 0) != nil {
+					sweep = append(sweep, x)
+				}
+			}
+		}
+		add(0, 300)
+		add(16374-20, 16384+20)
+		if thorough {
+			add(2097152-20, 2097152+20)
+		}
+		const sentinel = 3
+		var fs []framing
+		for _, a := range algs {
+			for _, x := range sweep {
+				fs = append(fs,
+					framing{a.Name, []int{x}, 1, true},
+					framing{a.Name, []int{x, sentinel}, 2, true},
+					framing{a.Name, []int{x, sentinel}, 3, true},
+					framing{a.Name, []int{sentinel, x}, 2, true},
+					framing{a.Name, []int{x, x, sentinel}, 4, true})
+			}
+		}
+		r.Set("sweep_sizes", len(sweep))
+		r.Set("sweep_framings", len(fs))
+		vr.Parallel(len(fs), func(i int) {
+			f := fs[i]
+			l := r.Local()
+			defer l.Flush()
+			p := produce(f)
+			if p.err != nil {
+				c := c22replay{Frame: &c22case{F: f}}
+				r.Violate(vr.J(c), p.err.Error(), c, func() bool { q := produce(f); return q.err != nil })
+				return
+			}
+			n := len(p.wire)
+			ds := []delivery{{0, n, 0}}
+			if n <= 1<<17 {
+				ds = append(ds, delivery{0, n, 1})
+			}
+			for _, d := range ds {
+				o := decodeAndJudge(f, &p, d)
+				l.Case(fmt.Sprintf("sweep|%s|%v|%d|%d", f.Alg, f.Sizes, f.Flush, d.Chunk), true)
+				if o.what == "" && o.decoded != len(f.Sizes) {
+					o.what = fmt.Sprintf("only %d of %d flushed messages decoded", o.decoded, len(f.Sizes))
+				}
+				if o.what != "" {
+					l.Outcome("sweep:violation")
+					c := c22replay{Frame: &c22case{F: f, D: d}}
+					r.Violate(vr.J(c), o.what, c, func() bool {
+						q := produce(f)
+						return q.err != nil || decodeAndJudge(f, &q, d).what != ""
+					})
+				} else {
+					l.Outcome("sweep:all-decoded")
+				}
+			}
+		})
+	}
+
 	// ---- leg B: the real client (c22b_test.go) ----
 	runClientLeg(r)
 
-	r.Sample(c22replay{Frame: &c22case{F: framing{"deflate", []int{200, 70000, 1}, 5}, D: delivery{0, 212, 0}}})
-	r.Sample(c22replay{Frame: &c22case{F: framing{"none", []int{70000, 0}, 2}, D: delivery{65536, 70007, 0}}})
+	r.Sample(c22replay{Frame: &c22case{F: framing{"deflate", []int{200, 70000, 1}, 5, false}, D: delivery{0, 212, 0}}})
+	r.Sample(c22replay{Frame: &c22case{F: framing{"none", []int{70000, 0}, 2, false}, D: delivery{65536, 70007, 0}}})
 	r.Sample(c22replay{Forged: &forgedCase{Alg: "deflate", Valid: 1, Declared: csLimit + 1}})
+	r.Sample(c22replay{Frame: &c22case{F: framing{"none", []int{127, 3}, 2, true}, D: delivery{0, 133, 1}}})
 }
 
 func (p *produced) sinkWrites() []int {
